@@ -195,6 +195,13 @@ contract("BaseProject.__allocate", props=["C03", "C04", "C06", "C11", "C13"],
                   ("bounded:new-workers-eligible", "(forall(self.workflow.task_list, lambda t: forall(t.allocated_worker_list, lambda w:"
                        " exists(old(t.allocated_worker_list), lambda w0: w0 is w) or (old(w.state) == BaseWorkerState.FREE and has_skill(w, t.name)"
                        " and exists(self.organization.team_list, lambda tm: tm.ID == w.team_id and t in tm.targeted_task_list)))))"),
+                  # C13(a): a workplace lists a component exactly when the component reports being placed there
+                  ("bounded:placement-two-way", "forall_obj('BaseWorkplace', lambda wp: forall(wp.placed_component_list, lambda c: c.placed_workplace is wp))"
+                                                " and forall_obj('BaseComponent', lambda c: implies(c.placed_workplace is not None, c in c.placed_workplace.placed_component_list))"),
+                  # C13(e): a facility newly given to a task belongs to the workplace where the task's component is placed (at the end of the pass)
+                  ("bounded:facilities-from-placed-workplace", "forall(self.workflow.task_list, lambda t: implies(t.need_facility, forall(t.allocated_facility_list, lambda f:"
+                       " exists(old(t.allocated_facility_list), lambda f0: f0 is f) or (t.target_component.placed_workplace is not None"
+                       " and exists(t.target_component.placed_workplace.facility_list, lambda g: g is f)))))"),
                   ("task-states-untouched", "unchanged('BaseTask.state')")],
          modifies=["BaseTask.allocated_worker_list", "BaseTask.allocated_facility_list", "BaseWorker.assigned_task_list",
                    "BaseFacility.assigned_task_list", "BaseComponent.placed_workplace", "BaseWorkplace.placed_component_list"])
@@ -277,6 +284,10 @@ contract("BaseProject.simulate", props=["C05", "C08", "C01", "C07", "C10"],
                   " f.state_record_list[len(f.state_record_list) - 1] == BaseFacilityState.ABSENCE and f.cost_list[len(f.cost_list) - 1] == 0.0)))"),
              ("step:absence-no-manual-progress", "implies(not working, forall(self.workflow.task_list, lambda t: implies(not t.auto_task or not perform_auto_task_while_absence_time,"
                   " t.remaining_work_amount == at_head(t.remaining_work_amount) or (t.remaining_work_amount == 0.0 and at_head(t.remaining_work_amount) < 0.0 + 1e-10))))"),
+             # C14: when a step is recorded every component's state agrees with the states of its tasks
+             ("step:component-state-follows-tasks", "forall(self.product.component_list, lambda c: implies(all_fin(c), c.state == BaseComponentState.FINISHED)"
+                  " and implies(any_working(c), c.state == BaseComponentState.WORKING)"
+                  " and implies(any_ready(c) or any_working(c), c.state != BaseComponentState.NONE))"),
              # C07: the project's entry for the step is the organization's
              ("step:project-cost-is-organization-cost", "self.cost_list[len(self.cost_list) - 1] == self.organization.cost_list[len(self.organization.cost_list) - 1]"),
          ]})
